@@ -168,12 +168,35 @@ impl<'a> Oracle<'a> {
         })
     }
 
+    /// Event number at which the last `reset()` on `l`'s cache that
+    /// completed before `l` was invoked *began* (0: none).
+    fn reset_bound(&self, l: &OpRec) -> u32 {
+        let mut b = 0;
+        for o in self.run.ops.iter() {
+            if o.cache == l.cache && matches!(o.kind, OpKind::Reset) {
+                if let Some(ret) = o.ret {
+                    if ret < l.inv {
+                        b = b.max(o.inv);
+                    }
+                }
+            }
+        }
+        b
+    }
+
+    /// The part of witness `p`'s interval whose reads `l` may still observe:
+    /// from the later of `p`'s start and the start of the last completed
+    /// reset (see `witnesses_lo`), to the earlier of the two ends. May be
+    /// empty (`lo > hi`).
     fn window(&self, p: &OpRec, l: &OpRec) -> (u32, u32) {
         let hi = p.ret.unwrap_or(u32::MAX).min(l.ret.unwrap_or(u32::MAX));
-        (p.inv, hi)
+        (p.inv.max(self.reset_bound(l)), hi)
     }
 
     fn snaps(&self, lo: u32, hi: u32) -> &'a [Snapshot] {
+        if lo > hi {
+            return &[];
+        }
         self.run.disk.overlapping(lo, hi)
     }
 
@@ -288,10 +311,19 @@ impl<'a> Oracle<'a> {
     /// Operations on `l`'s cache whose effects `l` may legitimately still
     /// observe (DESIGN.md 3.4, "witness").
     fn witnesses(&self, l: &OpRec) -> Vec<&'a OpRec> {
+        self.witnesses_lo(l).into_iter().map(|w| w.0).collect()
+    }
+
+    /// Witnesses together with the event number from which their reads
+    /// count: an operation that overlaps the last completed `reset()` can
+    /// only have kept what it read *after that reset began* (whatever it had
+    /// cached before was wiped; a correct implementation reads and installs
+    /// under one lock, so it cannot install older data afterwards).
+    fn witnesses_lo(&self, l: &OpRec) -> Vec<(&'a OpRec, u32)> {
         let ops = &self.run.ops;
         if !self.case().mono {
             // No monotonic clock: every cached entry is always expired.
-            return vec![&ops[l.id as usize]];
+            return vec![(&ops[l.id as usize], l.inv)];
         }
         // Last reset on this cache that returned before `l` was invoked.
         let mut reset_inv: Option<u32> = None;
@@ -322,6 +354,7 @@ impl<'a> Oracle<'a> {
                 p.id == l.id
                     || l.clk_inv <= p.clk_ret.saturating_add(TTL_NS)
             })
+            .map(|p| (p, p.inv.max(reset_inv.unwrap_or(0))))
             .collect()
     }
 
@@ -444,7 +477,7 @@ impl<'a> Oracle<'a> {
             return None;
         };
         let canonical = self.case().universe[n].clone();
-        let wit = self.witnesses(l);
+        let wit = self.witnesses_lo(l);
         match l.res {
             Res::Zone(ref z) => {
                 self.stats.gets_ok += 1;
@@ -462,12 +495,16 @@ impl<'a> Oracle<'a> {
                 // Clause 1: freshness / no invented data.
                 let mut by_self = false;
                 let mut by_other = false;
-                for p in wit.iter() {
+                for &(p, plo) in wit.iter() {
                     let same_name = matches!(p.kind, OpKind::Get { name: Some(m), .. } if m == n);
                     if !same_name {
                         continue;
                     }
                     let (lo, hi) = self.window(p, l);
+                    let _ = plo;
+                    if lo > hi {
+                        continue;
+                    }
                     for e in self.candidates(n, lo, hi) {
                         if let Exp::Zone(e) = e {
                             if same_zone(z, &e) {
@@ -520,7 +557,7 @@ impl<'a> Oracle<'a> {
                 // (b') zoneinfo: an injected error made the directory walk of
                 // an operation that is still within its TTL skip entries.
                 if backend == Backend::ZoneInfo
-                    && wit.iter().any(|p| self.io_fault_in_listing(p.id))
+                    && wit.iter().any(|w| self.io_fault_in_listing(w.0.id))
                 {
                     self.stats.errs_justified_by_io_fault += 1;
                     return None;
@@ -529,8 +566,12 @@ impl<'a> Oracle<'a> {
                 // earlier operation that is still within its TTL, at a
                 // moment the name was not listable.
                 if backend == Backend::ZoneInfo {
-                    for p in wit.iter().filter(|p| p.id != l.id) {
+                    for &(p, plo) in wit.iter().filter(|w| w.0.id != l.id) {
                         let (lo, hi) = self.window(p, l);
+                        let _ = plo;
+                        if lo > hi {
+                            continue;
+                        }
                         for s in self.snaps(lo, hi) {
                             if !self.listable(&s.views[n]) {
                                 self.stats.gets_err_by_earlier_witness += 1;
@@ -583,6 +624,9 @@ impl<'a> Oracle<'a> {
             for p in wit.iter() {
                 may_fail |= self.io_fault_in_listing(p.id);
                 let (lo, hi) = self.window(p, l);
+                if lo > hi {
+                    continue;
+                }
                 let (images, any_absent) = self.cc_images(lo, hi);
                 may_fail |= any_absent;
                 for &h in &images {
@@ -653,6 +697,9 @@ impl<'a> Oracle<'a> {
         }
         for p in wit.iter() {
             let (lo, hi) = self.window(p, l);
+            if lo > hi {
+                continue;
+            }
             let snaps = self.snaps(lo, hi);
             let may_have_failed = match backend {
                 Backend::Concatenated => snaps.iter().any(|s| {
